@@ -207,9 +207,6 @@ func (cs c05Case) hasFloat() bool {
 
 func (cs c05Case) request() string {
 	parts := []string{"num", cs.op.name}
-	if cs.op.name == "LessThan" {
-		parts[1] = "<"
-	}
 	for _, a := range cs.args {
 		parts = append(parts, a.wire())
 	}
